@@ -886,6 +886,7 @@ pub fn gen_program(rng: &mut Rng, rich: bool) -> (ModuleSpec, ProgInfo) {
         max: Some(4),
         shared: false,
         memory64: false,
+        page1: false,
     });
     m.globals.push(GlobalSpec {
         ty: VT::I32,
@@ -960,6 +961,10 @@ pub fn gen_program(rng: &mut Rng, rich: bool) -> (ModuleSpec, ProgInfo) {
         em.mark();
         for t in results.clone() {
             em.expr_of(t);
+        }
+        if rich && em.rng.chance(1, 5) {
+            // the body ends in an explicit exit directly in front of the final `end`
+            em.out.push(Ins::Return);
         }
         em.out.push(Ins::End);
         let all_locals = em.locals.clone();
